@@ -44,6 +44,11 @@ let ity_of s =
 
 let show_signed v = hex_of_z v
 
+(* argv[1] = three characters 0/1: fx_zero (C09-4), fx_i128 (C09-2), fx_isize (C09-3) repaired? *)
+let vr =
+  let f i = Array.length Sys.argv > 1 && String.length Sys.argv.(1) > i && Sys.argv.(1).[i] = '1' in
+  { fx_zero = f 0; fx_i128 = f 1; fx_isize = f 2 }
+
 let () =
   iter_lines (fun line ->
     let out =
@@ -62,13 +67,13 @@ let () =
             let m, e = split_exp sp in
             let m = List.map dch_of (explode m) in
             let e = (match e with None -> None | Some e -> Some (List.map dch_of (explode e))) in
-            Printf.sprintf "%s %s %d" (show_opt (lower_dec m e)) (show_opt (LiteralsProofs.dec_spec_exec m e))
-              (if LiteralsProofs.dec_known_class m e then 1 else 0)
+            Printf.sprintf "%s %s %d" (show_opt (lower_dec vr m e)) (show_opt (LiteralsProofs.dec_spec_exec m e))
+              (if LiteralsProofs.dec_known_class vr m e then 1 else 0)
           end
         | ["A"; t; n] ->
           let t = ity_of t and n = z_of_hex n in
-          Printf.sprintf "%d %d %s %s %s" (if accepted t n then 1 else 0) (if LiteralsProofs.fits_ty t n then 1 else 0)
-            (match LiteralsProofs.accept_known_class t n with Some c -> string_of_int (int_of_n c) | None -> "-")
+          Printf.sprintf "%d %d %s %s %s" (if accepted vr t n then 1 else 0) (if LiteralsProofs.fits_ty t n then 1 else 0)
+            (match LiteralsProofs.accept_known_class vr t n with Some c -> string_of_int (int_of_n c) | None -> "-")
             (hex_of_z (materialise t n)) (show_signed (observed t n))
         | ["D"; n] ->
           let n = z_of_hex n in
